@@ -9,6 +9,9 @@ stdin and prints the observation of :func:`harness.c17.observe_config` as JSON o
 With ``{"mode": "opt", "case", "cfgs"}`` it runs the MDO scenarios of the optimisation stream instead, one result
 line per configuration as soon as it is finished (SciPy's SLSQP can cycle for ever inside compiled code on a
 degenerate problem; the harness kills this helper after a time-out and skips the unfinished configurations).
+
+With ``{"mode": "check", "case", "only"}`` it evaluates the oracle on the case in this fresh interpreter (used to confirm
+that a shrunk failing input reproduces without the history of the harness process).
 """
 
 from __future__ import annotations
@@ -28,6 +31,11 @@ def main() -> int:
             result = c17.optimise_one(req["case"], settings)
             sys.stdout.write("\nC17-PROC-OPT " + json.dumps({"ck": ck, "result": result}) + "\n")
             sys.stdout.flush()
+        return 0
+    if req.get("mode") == "check":
+        # the oracle on one case (restricted to some configurations) in this fresh interpreter: what a replay will see
+        bad, _, _ = c17.check_one(req["case"], None, req.get("only"))
+        sys.stdout.write("\nC17-PROC-CHECK " + json.dumps([[k, m[:600]] for k, m in bad]) + "\n")
         return 0
     case, cfg = req["case"], req["cfg"]
     obs = c17.observe_config(case, cfg, c17.float_points(case), in_process=True)
